@@ -62,6 +62,20 @@ type histAccount struct {
 // histShared lives as long as the process, like data kept by a server between requests
 var histShared = &histAccount{Name: "shared", Qty: 2, Next: &histAccount{Name: "next", Qty: 3}}
 
+// histKept and what it holds are changed in place between calls, the way a server updates a record it keeps
+var histKeptMeta = map[string]any{"tag": "t0", "rank": 0}
+var histKeptItems = []string{"i0", "i1"}
+var histKept = map[string]any{"name": "nobody", "age": 0, "items": histKeptItems, "meta": histKeptMeta}
+
+func histKeptAs(name string, age int) map[string]any {
+	histKept["name"] = name
+	histKept["age"] = age
+	histKeptItems[0] = "item of " + name
+	histKeptMeta["tag"] = "tag of " + name
+	histKeptMeta["rank"] = age * 10
+	return map[string]any{"user": histKept, "zero": 0}
+}
+
 func histItemA() any {
 	type histItem struct {
 		Name string
@@ -294,6 +308,33 @@ func histOps() []histOp {
 		}},
 		{"EvaluateString(invoice 429192)", func(h *histEnv) string {
 			out, err := textwire.EvaluateString("<p>Invoice 429192: {{ total }} EUR</p>", map[string]any{"total": 5})
+			return fmt.Sprintf("out=%q err=%v", out, err)
+		}},
+		// one record kept by the caller and updated in place between calls (same keys, same lengths)
+		{"EvaluateString(kept record as ann)", func(h *histEnv) string {
+			out, err := textwire.EvaluateString("{{ user.name }} {{ user.age }} {{ user.items }} {{ user.meta.tag }} {{ user.meta.rank / user.age }}", histKeptAs("ann", 1))
+			return fmt.Sprintf("out=%q err=%v", out, err)
+		}},
+		{"EvaluateString(kept record as bob)", func(h *histEnv) string {
+			out, err := textwire.EvaluateString("{{ user.name }} {{ user.age }} {{ user.items }} {{ user.meta.tag }} {{ user.meta.rank / user.age }}", histKeptAs("bob", 2))
+			return fmt.Sprintf("out=%q err=%v", out, err)
+		}},
+		{"String(profile, kept record as nil-aged cy)", str("profile", func() map[string]any { return histKeptAs("cy", 0) })},
+		{"EvaluateString(kept record as cy: division by zero)", func(h *histEnv) string {
+			out, err := textwire.EvaluateString("{{ user.name }} {{ user.meta.rank / user.age }}", histKeptAs("cy", 0))
+			return fmt.Sprintf("out=%q err=%v", out, err)
+		}},
+		// character built-ins on strings outside ASCII, the same string in several calls
+		{"EvaluateString(żółw reversed)", func(h *histEnv) string {
+			out, err := textwire.EvaluateString("{{ w.reverse() }}|{{ w.first() }}|{{ w.last() }}|{{ w.at(1) }}|{{ w.len() }}|{{ w }}", map[string]any{"w": "żółw 😀!"})
+			return fmt.Sprintf("out=%q err=%v", out, err)
+		}},
+		{"EvaluateString(żółw first and last)", func(h *histEnv) string {
+			out, err := textwire.EvaluateString("{{ w.first() }}{{ w.last() }}{{ w.at(2) }} {{ \"żółw 😀!\".reverse() }} {{ w.truncate(3) }} {{ w.upper() }}", map[string]any{"w": "żółw 😀!"})
+			return fmt.Sprintf("out=%q err=%v", out, err)
+		}},
+		{"EvaluateString(中文 reversed)", func(h *histEnv) string {
+			out, err := textwire.EvaluateString("{{ w.reverse() }}|{{ w.first() }}|{{ w.last() }}|{{ w.len() }}", map[string]any{"w": "中文字符"})
 			return fmt.Sprintf("out=%q err=%v", out, err)
 		}},
 		// one path rewritten between calls with text of the same length, the modification time restored
